@@ -114,7 +114,7 @@ Theorem digits_spec ts1 : forall ts2 idx,
   dotT (flatE ts1 ts2) (digits ts1 idx) = affine_addr ts2 idx.
 Proof.
   induction ts1 as [|t1 ts1 IH]; intros [|t2 ts2] idx H1 H2 Hb Hbox; try discriminate.
-  - inversion Hbox; subst. repeat split.
+  - inversion Hbox; subst. repeat split. constructor.
   - inversion H1 as [|? ? Ht1 Hts1]; inversion H2 as [|? ? Ht2 Hts2]; subst.
     cbn [map] in Hb, Hbox. inversion Hb as [[Hb1 Hb2]].
     inversion Hbox as [|x n idx' sh Hx Hbox']; subst.
@@ -153,11 +153,11 @@ Qed.
 
 Lemma dot_scaled_S el T ivs : dot (map (fun e => tsrc e * el) T) ivs = el * dotS T ivs.
 Proof.
-  revert ivs. induction T as [|e T IH]; intros [|i ivs]; cbn [map dot dotS]; try lia. rewrite IH. ring.
+  revert ivs. induction T as [|e T IH]; intros [|i ivs]; cbn [map dot dotS]; try lia; try (rewrite IH; ring).
 Qed.
 Lemma dot_scaled_T el T ivs : dot (map (fun e => tdst e * el) T) ivs = el * dotT T ivs.
 Proof.
-  revert ivs. induction T as [|e T IH]; intros [|i ivs]; cbn [map dot dotT]; try lia. rewrite IH. ring.
+  revert ivs. induction T as [|e T IH]; intros [|i ivs]; cbn [map dot dotT]; try lia; try (rewrite IH; ring).
 Qed.
 
 Lemma bursts_nest2 ps pd el so do_ T th size b :
@@ -171,11 +171,11 @@ Proof.
   rewrite bursts_nest. cbn [app bursts]. split.
   - intros [ivs [Hb Hin]]. apply in_map_iff in Hin as [i [<- Hi]]. apply in_zrange in Hi.
     apply in_bounds_valid in Hb. exists (i :: ivs). split; [constructor; assumption|].
-    unfold aeval. cbn [fst snd dotS dotT]. rewrite dot_scaled_S, dot_scaled_T. f_equal; [f_equal|]; ring.
+    unfold aeval. cbn [fst snd dotS dotT]. rewrite dot_scaled_S, dot_scaled_T. apply f_equal2; [apply f_equal2; ring|reflexivity].
   - intros [ds [Hv ->]]. inversion Hv as [|i e ivs L Hi Hv']; subst.
     exists ivs. split; [apply in_bounds_valid; exact Hv'|]. apply in_map_iff. exists i.
     split; [|apply in_zrange; exact Hi].
-    unfold aeval. cbn [fst snd dotS dotT]. rewrite dot_scaled_S, dot_scaled_T. f_equal; [f_equal|]; ring.
+    unfold aeval. cbn [fst snd dotS dotT]. rewrite dot_scaled_S, dot_scaled_T. apply f_equal2; [apply f_equal2; ring|reflexivity].
 Qed.
 
 (* ---- products ------------------------------------------------------------------------------------ *)
@@ -245,9 +245,132 @@ Section Main.
   Lemma shape_prod : zprod (shape_of src) = bprod R * bprod C.
   Proof.
     unfold shape_of. rewrite <- (bprod_flatE _ _ Hsrc Hdst tile_bounds_eq), <- E_flat.
-    rewrite (bprod_perm _ _ (partition_perm src dst Hsrc Hdst Hetb Hsafe)).
-    fold R C U. rewrite !bprod_app.
-    rewrite (bprod_unit U (UU_unit src dst Hsrc Hdst Hetb Hsafe)).
+    unfold E, R, C, U. rewrite (bprod_perm _ _ (partition_perm src dst Hsrc Hetb)).
+    rewrite !bprod_app.
+    rewrite (bprod_unit _ (UU_unit src dst Hsrc Hdst Hsafe)).
     ring.
   Qed.
+
+  (* normal form of the emitted code: its bursts are enumerated by the digit vectors of R *)
+  Theorem lower_bursts : exists code, lower src dst el (shape_of src) = Some code /\
+    forall ps pd b, In b (bursts ps pd code []) <->
+      exists ds, valid ds R /\
+        b = (ps + el * (so + dotS R ds), pd + el * (do_ + dotT R ds), bprod C * el).
+  Proof.
+    unfold lower. rewrite Hso, Hdo, (remaining_eq src dst Hetb).
+    rewrite (map_opt_loop_of el _ (rem_pair_ok src dst Hsrc Hdst)).
+    pose proof shape_prod as Hsp. unfold R, RR in *.
+    destruct (sort_desc (rem_list src dst)) as [|h tail] eqn:Es; cbn [map].
+    - eexists. split; [reflexivity|]. intros ps pd b. cbn [bursts In]. unfold aeval. cbn [fst snd dot].
+      cbn [map] in Hsp. change (bprod []) with 1 in Hsp. rewrite Hsp. split.
+      + intros [<-|[]]. exists []. split; [constructor|]. cbn [dotS dotT].
+        apply f_equal2; [apply f_equal2; ring|ring].
+      + intros [ds [Hv ->]]. inversion Hv; subst. left. cbn [dotS dotT].
+        apply f_equal2; [apply f_equal2; ring|ring].
+    - destruct (block_size src dst Hsrc) as [ls [lb [El Eb]]]. rewrite El.
+      eexists. split; [reflexivity|]. intros ps pd b. rewrite !map_map. cbn [fst snd].
+      fold C in Eb. rewrite Eb.
+      rewrite <- (map_map tri_of tb), <- (map_map tri_of (fun e => tsrc e * el)),
+              <- (map_map tri_of (fun e => tdst e * el)).
+      apply bursts_nest2.
+  Qed.
+
+  Definition inj_on (l : layout) (shape : list Z) : Prop :=
+    forall i j, In i (row_major shape) -> In j (row_major shape) ->
+      affine_map_eval l i = affine_map_eval l j -> i = j.
+
+  Definition disjoint_footprints (ps pd : Z) (shape : list Z) : Prop :=
+    forall i j k k', In i (row_major shape) -> In j (row_major shape) -> 0 <= k < el -> 0 <= k' < el ->
+      ps + elem_addr src el i + k <> pd + elem_addr dst el j + k'.
+
+  Lemma idx_digits idx : In idx (row_major (shape_of src)) ->
+    valid (digits (tstrides src) idx) E /\
+    dotS E (digits (tstrides src) idx) = affine_map_eval src idx /\
+    dotT E (digits (tstrides src) idx) = affine_map_eval dst idx.
+  Proof.
+    intros H. apply in_row_major in H. rewrite E_flat.
+    apply (digits_spec _ _ idx Hsrc Hdst tile_bounds_eq H).
+  Qed.
+
+  Lemma digits_idx d : valid d E -> exists idx, In idx (row_major (shape_of src)) /\ digits (tstrides src) idx = d.
+  Proof.
+    rewrite E_flat. intros H. destruct (undigits _ _ d Hsrc Hdst tile_bounds_eq H) as [idx [Hb Ed]].
+    exists idx. split; [apply in_row_major; exact Hb|exact Ed].
+  Qed.
+
+  Lemma elem_addr_src idx : elem_addr src el idx = el * (so + affine_map_eval src idx).
+  Proof. unfold elem_addr. rewrite Hso. ring. Qed.
+  Lemma elem_addr_dst idx : elem_addr dst el idx = el * (do_ + affine_map_eval dst idx).
+  Proof. unfold elem_addr. rewrite Hdo. ring. Qed.
+
+  Section WithCode.
+    Variables (code : code) (ps pd : Z).
+    Hypothesis Hcode : lower src dst el (shape_of src) = Some code.
+    Hypothesis Hinj : inj_on dst (shape_of src).
+    Hypothesis Hdisj : disjoint_footprints ps pd (shape_of src).
+
+    Let bs := bursts ps pd code [].
+
+    Lemma bs_spec b : In b bs <->
+      exists ds, valid ds R /\
+        b = (ps + el * (so + dotS R ds), pd + el * (do_ + dotT R ds), bprod C * el).
+    Proof.
+      destruct lower_bursts as [code' [E1 H]]. rewrite Hcode in E1. inversion E1; subst code'. apply H.
+    Qed.
+
+    Lemma abs_inj d d' : valid d E -> valid d' E -> dotT E d = dotT E d' -> dotS E d = dotS E d'.
+    Proof.
+      intros Hv Hv' HT.
+      destruct (digits_idx d Hv) as [i [Hi Ei]]. destruct (digits_idx d' Hv') as [j [Hj Ej]].
+      destruct (idx_digits i Hi) as [_ [_ ETi]]. destruct (idx_digits j Hj) as [_ [_ ETj]].
+      rewrite Ei in ETi. rewrite Ej in ETj.
+      assert (i = j) by (apply Hinj; [exact Hi|exact Hj|congruence]). subst j. congruence.
+    Qed.
+
+    Lemma abs_disj d d' k k' : valid d E -> valid d' E -> 0 <= k < el -> 0 <= k' < el ->
+      SA E el so ps d k <> DA E el do_ pd d' k'.
+    Proof.
+      intros Hv Hv' Hk Hk'.
+      destruct (digits_idx d Hv) as [i [Hi Ei]]. destruct (digits_idx d' Hv') as [j [Hj Ej]].
+      destruct (idx_digits i Hi) as [_ [ESi _]]. destruct (idx_digits j Hj) as [_ [_ ETj]].
+      rewrite Ei in ESi. rewrite Ej in ETj.
+      pose proof (Hdisj i j k k' Hi Hj Hk Hk') as Hne.
+      rewrite elem_addr_src, elem_addr_dst in Hne. unfold SA, DA. rewrite ESi, ETj. exact Hne.
+    Qed.
+
+    (* C05, main statement *)
+    Theorem copy_correct_sec m idx k : In idx (row_major (shape_of src)) -> 0 <= k < el ->
+      run ps pd code m (pd + elem_addr dst el idx + k) = m (ps + elem_addr src el idx + k).
+    Proof.
+      intros Hidx Hk. unfold run. rewrite exec_run_bursts. fold bs.
+      destruct (idx_digits idx Hidx) as [Hv [ES ET]].
+      pose proof (abstract_copy_correct E R C U el so do_ ps pd bs
+                    (partition_perm src dst Hsrc Hetb) (CC_chain src dst Hsrc)
+                    (UU_unit src dst Hsrc Hdst Hsafe) Hel abs_inj abs_disj bs_spec
+                    m (digits (tstrides src) idx) k Hv Hk) as H.
+      unfold SA, DA in H. rewrite ES, ET in H.
+      rewrite elem_addr_src, elem_addr_dst. exact H.
+    Qed.
+
+    (* footprints: every byte read belongs to a source element, every byte written to a
+       destination element *)
+    Theorem copy_footprint_sec b x : In b bs -> 0 <= x < b_len b ->
+      (exists idx k, In idx (row_major (shape_of src)) /\ 0 <= k < el /\
+                     b_src b + x = ps + elem_addr src el idx + k) /\
+      (exists idx k, In idx (row_major (shape_of src)) /\ 0 <= k < el /\
+                     b_dst b + x = pd + elem_addr dst el idx + k).
+    Proof.
+      intros Hb Hx.
+      destruct (abstract_footprint E R C U el so do_ ps pd bs
+                  (partition_perm src dst Hsrc Hetb) (CC_chain src dst Hsrc)
+                  (UU_unit src dst Hsrc Hdst Hsafe) Hel bs_spec b x Hb Hx)
+        as [[d [k [Hv [Hk E1]]]] [d' [k' [Hv' [Hk' E2]]]]].
+      destruct (digits_idx d Hv) as [i [Hi Ei]]. destruct (digits_idx d' Hv') as [j [Hj Ej]].
+      destruct (idx_digits i Hi) as [_ [ESi _]]. destruct (idx_digits j Hj) as [_ [_ ETj]].
+      rewrite Ei in ESi. rewrite Ej in ETj. unfold SA in E1. unfold DA in E2.
+      split.
+      - exists i, k. rewrite elem_addr_src, <- ESi. auto.
+      - exists j, k'. rewrite elem_addr_dst, <- ETj. auto.
+    Qed.
+  End WithCode.
 End Main.
